@@ -14,11 +14,16 @@ import (
 // type has a twin of the same shape that keeps InitDefaults (it decides
 // values) but has no Validate method and no validate tags: unpacking into the
 // twin shows which values a validation-free Unpack produces.
+//
+// Some fields carry a second set of validators under the tag name `strict`,
+// which Unpack reads instead of `validate` when it is called with the option
+// ValidatorTag("strict") (see view_test.go). All config names equal the
+// lower-cased Go field names, so the types read the same under every StructTag.
 
 // c04VS: struct validated by a value-receiver Validate().
 type c04VS struct {
 	X int    `config:"x"`
-	S string `config:"s"`
+	S string `config:"s" strict:"required"` // a validator under the second tag name only
 }
 
 func (v c04VS) Validate() error {
@@ -35,7 +40,7 @@ type c04VSTwin struct {
 
 // c04PV: struct validated by a pointer-receiver Validate(), with a tag inside.
 type c04PV struct {
-	N int           `config:"n" validate:"max=100"`
+	N int           `config:"n" validate:"max=100" strict:"max=50"`
 	D time.Duration `config:"d"`
 }
 
@@ -56,7 +61,7 @@ type c04PVTwin struct {
 
 // c04DS: InitDefaults establishes valid values; tags on the fields.
 type c04DS struct {
-	X int    `config:"x" validate:"min=1"`
+	X int    `config:"x" validate:"min=1" strict:"min=3"`
 	Y string `config:"y" validate:"nonzero"`
 }
 
@@ -157,7 +162,7 @@ type c04VLTwin []int
 
 // c04EL: plain struct with a tag (element type of c04MS).
 type c04EL struct {
-	R int    `config:"r" validate:"min=1"`
+	R int    `config:"r" validate:"min=1" strict:"max=5"`
 	T string `config:"t"`
 }
 
@@ -246,7 +251,7 @@ func (d *c04DPTwin) InitDefaults() { d.P = &c04VSTwin{X: -1, S: "d"} }
 
 // c04DT: struct whose InitDefaults sets a field to a value its tag rejects.
 type c04DT struct {
-	X int    `config:"x" validate:"positive"`
+	X int    `config:"x" validate:"positive" strict:"max=-1"`
 	Y string `config:"y"`
 }
 
@@ -326,7 +331,15 @@ func register(name string, real, twin interface{}, shape *gen.TD, info catInfo) 
 	gen.RegisterCat(name+"_twin", tt, twinOf(stripShape(shape)))
 	cats["cat:"+name] = info
 	catKinds = append(catKinds, "cat:"+name)
+	catTypes["cat:"+name], catShapes["cat:"+name] = rt, shape
 }
+
+// the hand-written Go types and their shapes under the default tag names, by kind (view_test.go derives the shapes
+// the types have under other validator tag names from them)
+var (
+	catTypes  = map[string]reflect.Type{}
+	catShapes = map[string]*gen.TD{}
+)
 
 func intsNonNegative(v reflect.Value) bool {
 	for i := 0; i < v.Len(); i++ {
@@ -400,7 +413,7 @@ func twinOf(td *gen.TD) *gen.TD {
 	}
 	c := *td
 	if _, ok := cats[td.Kind]; ok {
-		c.Kind = td.Kind + "_twin"
+		c.Kind = catBase(td.Kind) + "_twin"
 	}
 	c.Elem = twinOf(td.Elem)
 	c.Fields = nil
